@@ -13,12 +13,13 @@ RULE = (
     "all program families (DAG, gated, loops, nested, mapped, wait_for DAGs with emits, cached nodes and cached gates "
     "with emits run twice on one cache) x entry-point sets (1-3 non-gate nodes) x selections at graph level, run time "
     "and inside nested graphs x on_missing in {ignore, warn, error}; results of completed, failed (continue) and paused "
-    "runs; 25% of the graphs are derived (with_entrypoint/select/bind) from objects that were already run. Oracle: (a) "
+    "runs; some function nodes return None (a produced value); 25% of the graphs are derived (with_entrypoint/select/bind) from objects that were already run. Oracle: (a) "
     "every function invocation belongs to an entry node or a node downstream of one on the spec's data+control+ordering "
     "relation; (b) every key of values is a declared data output inside the effective selection (run-time select "
     "overrides the graph default), never a plain input, an emit name, the sentinel (by identity or by type), or an "
     "internal '__...__' key; (c) a nested graph exposes exactly its selection; (d) a selected but unproduced name is "
-    "silently ignored / warned about with UserWarning / raises ValueError according to on_missing. Non-trivial: an "
+    "silently ignored / warned about with UserWarning / raises ValueError according to on_missing, while a selected name that WAS produced (a "
+    "None-valued one preferred) is returned with its value and fires no policy. Non-trivial: an "
     "entry point or a selection is configured; distinct = (program shape, configuration)."
 )
 ASSUMPTIONS = ["'downstream' is computed on the program spec, independently of the library's own graph"]
@@ -91,6 +92,12 @@ def one(ctx, fam, i):
     spec = copy.deepcopy(fam["spec"])
     inputs = dict(fam["inputs"])
     data, emits = declared_outputs(spec)
+    # a produced value may legitimately BE None: produced-ness is membership, not truthiness
+    if fam["family"] != "loop" and rng.random() < 0.35:
+        cands = [ns for ns in spec["nodes"] if ns["k"] == "fn" and not ns.get("beh") and not ns.get("gen") and len(ns.get("outs", [])) == 1]
+        for ns in rng.sample(cands, min(len(cands), rng.randint(1, 2))):
+            ns["beh"] = ["const", None]
+            ctx.obs["none_valued_outputs"] += 1
     # configuration
     fnodes = [ns["name"] for ns in spec["nodes"] if ns["k"] not in ("ifelse", "route")]
     cfg = {}
@@ -198,8 +205,23 @@ def one(ctx, fam, i):
     # on_missing policy for a selected name that is not produced
     produced_probe = core.execute(built, provided, "sync" if not any(ns["k"] == "int" for ns in spec["nodes"]) else "async", error_handling="continue", max_iterations=100)
     if produced_probe.exc is None and produced_probe.status == "completed":
-        allp = produced_probe_all(ctx, built, provided, spec)
+        allv = produced_probe_all(ctx, built, provided, spec)
+        allp = set(allv) if allv is not None else None
         missing = sorted(data - allp) if allp is not None else []
+        present = sorted(data & allp) if allp is not None else []
+        if present:
+            # a selected name that WAS produced is returned, whatever its value, and no policy fires
+            m = rng.choice([k for k in present if allv[k] is None] or present)
+            runner = "sync" if not any(ns["k"] == "int" for ns in spec["nodes"]) else "async"
+            for pol in ("warn", "error"):
+                o = core.execute(built, provided, runner, select=[m], on_missing=pol, max_iterations=100)
+                ctx.obs["produced_selected_checked"] += 1
+                uw = [w for w in o.warnings if issubclass(w.category, UserWarning) and "not found" in str(w.message)]
+                c2 = {**case, "provided": core.jsonable(provided), "select": [m], "on_missing": pol}
+                if o.exc is not None or uw:
+                    ctx.violation("C16:on_missing-fired-for-produced-name", f"select=[{m}] on_missing={pol}: {m} is produced (value {core.short(allv[m])}) yet exc={o.exc!r} warnings={[str(w.message)[:60] for w in uw]}", c2)
+                elif o.status == "completed" and (m not in (o.values or {}) or o.values[m] != allv[m]):
+                    ctx.violation("C16:selected-produced-name-absent", f"select=[{m}] on_missing={pol}: {m} is produced (value {core.short(allv[m])}) but the result holds {core.short(o.values)}", c2)
         if missing:
             m = rng.choice(missing)
             runner = "sync" if not any(ns["k"] == "int" for ns in spec["nodes"]) else "async"
@@ -224,7 +246,7 @@ def produced_probe_all(ctx, built, provided, spec):
     o = core.execute(built, provided, runner, select="**", error_handling="continue", max_iterations=100)
     if o.exc is not None or o.status != "completed":
         return None
-    return set(o.values or {})
+    return dict(o.values or {})
 
 
 def cached_gate_emit(rng):
